@@ -414,7 +414,9 @@ fn decode_to_sink<Sink, A>(
             },
         }
         input.pop_front(bytes_read as u32);
-        if input.is_empty() {
+        // At the end of the stream keep going until the decoder reports `InputEmpty`:
+        // after a malformed sequence it may still hold characters to emit.
+        if input.is_empty() && !last {
             return;
         }
     }
